@@ -405,6 +405,22 @@ func rewriteSig(t *rapid.T, km refcose.KeyMat, sig []byte) ([]byte, string) {
 			return append(r.Bytes(), s.Bytes()...), "sig/minimal-halves"
 		case 4:
 			return append(append([]byte{}, sig[n:]...), sig[:n]...), "sig/halves-swapped"
+		case 5, 6:
+			// r + order (or s + order) when it still fits the width (always on P-521): same residue,
+			// but an integer outside [1, n-1] is not part of a valid signature
+			order := km.Public().(*ecdsa.PublicKey).Curve.Params().N
+			out := make([]byte, 2*n)
+			rr, ss := r, s
+			if op == 5 {
+				rr = new(big.Int).Add(r, order)
+			} else {
+				ss = new(big.Int).Add(s, order)
+			}
+			if rr.BitLen() <= 8*n && ss.BitLen() <= 8*n {
+				rr.FillBytes(out[:n])
+				ss.FillBytes(out[n:])
+				return out, "sig/plus-order"
+			}
 		}
 	}
 	switch op % 4 {
